@@ -1488,6 +1488,11 @@ func (fv *FuncVerifier) modularCall(fn *types.Func, sp *FuncSpec, args []Term, s
 	// 1. preconditions
 	for i, c := range sp.Requires {
 		t := fv.evalWrapper(sp.PkgPath, c.Wrapper, args, st, nil)
+		if c.Invariant && fv.fd != nil && fv.fd.pkg != nil && fv.fd.pkg.PkgPath != sp.PkgPath {
+			fv.u.note("representation invariant of %s assumed at a call from another package: %s", sp.PkgPath, c.Text)
+			st.assume(t)
+			continue
+		}
 		fv.oblige(st, "pre", fmt.Sprintf("%s:%d:%d", sp.Name, ord, i), t, p, "precondition of "+sp.Name+": "+c.Text)
 	}
 	old := st.clone()
